@@ -177,6 +177,19 @@ PROPS['C15'] = {
     'level_note': K_NOTE, 'technique': K_TECH,
 }
 
+PROPS['C17'] = {
+    'level': 'exploration', 'budget': {'quick': 75, 'thorough': 1500},
+    'parts': [{'sim': 'shutdown', 'env': {'VERIF_ORACLES': 'C17'}}],
+    'rule': 'seeded scenarios: close cause {local/remote CloseWithError, fatal transport error from a sealed 1-RTT packet, idle timeout, outage, keep-alive survival, stateless reset after a server restart, Transport.Close, Listener.Close, dial cancellation, '
+            'handshake failures (ALPN, certificate, crypto buffer), handshake timeouts} x seeded subset of concurrently blocked calls on both sides {Read, Write, AcceptStream, AcceptUniStream, OpenStreamSync, OpenUniStreamSync, ReceiveDatagram, SendDatagram, Dial, Accept} '
+            'plus later calls x timing of the cause relative to handshake / transfer / outage x loss, duplication and reordering on the closing exchange x idle timeouts 2-30 s and keep-alive periods; '
+            'non-trivial = every run (a cause always fires); distinct = distinct abstract wire traces',
+    'real_vs_stub': 'real: client and server transports, listeners, connections, streams, datagram queues, closed-connection handlers; stub: network, clock; adversarial packets sealed by the simulator with the session keys',
+    'assumptions': ['a blocked call must return within 1 ms of simulated time after the connection context is done', 'closing during 0-RTT/early phases is not produced'],
+    'level_text': 'seeded search over close causes x blocked calls x timings x faults on whole connections: every call returns with the one recorded cause, CONNECTION_CLOSE on the wire exactly where due with back-off, idle-timeout bounds from acknowledged deliveries, no goroutine left',
+    'level_note': W_NOTE, 'technique': W_TECH,
+}
+
 NOT_APPLICABLE = {
     'C08': 'pure functions of a byte string / value (quantifier: inputs only): no schedule, clock, fault or interleaving for a simulator to control; deciding it is input generation (fuzzing), a different technique - DESIGN.md section 5',
     'C19': 'predicate over field lists and http.Header values (quantifier: inputs only): no schedule, clock, fault or interleaving - DESIGN.md section 5',
